@@ -257,7 +257,7 @@ class Env:
                             thr=ch.bufferedAmountLowThreshold, q=self._queued_bytes(side, ch))
         while self.loop.task_exceptions:
             name, msg, exc = self.loop.task_exceptions.pop(0)
-            self.ev(k="exc", where="task", name=name)
+            self.ev(k="exc", where="task", name=name, fn=_innermost(exc))
 
     # -- driver API (each call is one run-to-completion step) ----------------------
     def start(self, which="AB"):
@@ -272,7 +272,7 @@ class Env:
         try:
             return self.loop.run(coro)
         except Exception as exc:  # an exception escaping a handler
-            self.ev(k="exc", where=where, name=type(exc).__name__)
+            self.ev(k="exc", where=where, name=type(exc).__name__, fn=_innermost(exc))
             self.last_exc = exc
             return None
 
@@ -343,11 +343,11 @@ class Env:
         if ch is None:
             return
         self.begin_step()
-        self.ev(k="close", e=e, c=tok)
+        self.ev(k="close", e=e, c=tok, est=bool(self.ep[e].state == "connected"), hasid=bool(ch.id is not None))
         try:
             ch.close()
         except Exception as exc:
-            self.ev(k="exc", where="close", name=type(exc).__name__)
+            self.ev(k="exc", where="close", name=type(exc).__name__, fn=_innermost(exc))
         self.end_step()
 
     def set_threshold(self, e, tok, thr):
@@ -369,8 +369,16 @@ class Env:
             self._guard("handle_data", r._handle_data(pkt["data"]))
         self.end_step()
 
+    def has_reconfig(self, pkt):
+        try:
+            chunks = self.S.parse_packet(pkt["data"])[3]
+        except Exception:
+            return False
+        return any(isinstance(c, self.S.ReconfigChunk) for c in chunks)
+
     def drop(self, pkt):
         self.net.remove(pkt)
+        self.ev(k="drop", src=pkt["src"], reconfig=bool(self.has_reconfig(pkt)))
 
     def timers(self, e=None):
         res = []
@@ -386,7 +394,7 @@ class Env:
         try:
             self.loop.fire(handle)
         except Exception as exc:
-            self.ev(k="exc", where="timer", name=type(exc).__name__)
+            self.ev(k="exc", where="timer", name=type(exc).__name__, fn=_innermost(exc))
         self.end_step()
 
     def advance(self, dt):
@@ -442,3 +450,15 @@ class Env:
 
 def id_(o):
     return id(o)
+
+
+def _innermost(exc):
+    """Name of the innermost aiortc function on the exception's traceback."""
+    fn = "?"
+    tb = getattr(exc, "__traceback__", None)
+    while tb is not None:
+        code = tb.tb_frame.f_code
+        if "aiortc" in code.co_filename:
+            fn = code.co_name
+        tb = tb.tb_next
+    return fn
